@@ -4,10 +4,12 @@ go 1.23.0
 
 require (
 	github.com/anishathalye/porcupine v1.3.0
+	github.com/aws/aws-sdk-go-v2/service/s3 v1.79.2
 	github.com/gofiber/fiber/v2 v2.52.6
 	github.com/pkg/xattr v0.4.10
 	github.com/valyala/fasthttp v1.60.0
 	github.com/versity/versitygw v0.0.0
+	golang.org/x/sys v0.32.0
 )
 
 require (
@@ -28,7 +30,6 @@ require (
 	github.com/aws/aws-sdk-go-v2/service/internal/checksum v1.7.0 // indirect
 	github.com/aws/aws-sdk-go-v2/service/internal/presigned-url v1.12.15 // indirect
 	github.com/aws/aws-sdk-go-v2/service/internal/s3shared v1.18.15 // indirect
-	github.com/aws/aws-sdk-go-v2/service/s3 v1.79.2 // indirect
 	github.com/aws/aws-sdk-go-v2/service/sso v1.25.3 // indirect
 	github.com/aws/aws-sdk-go-v2/service/ssooidc v1.30.1 // indirect
 	github.com/aws/aws-sdk-go-v2/service/sts v1.33.19 // indirect
@@ -56,7 +57,6 @@ require (
 	github.com/smira/go-statsd v1.3.4 // indirect
 	github.com/valyala/bytebufferpool v1.0.0 // indirect
 	golang.org/x/crypto v0.37.0 // indirect
-	golang.org/x/sys v0.32.0 // indirect
 	golang.org/x/time v0.11.0 // indirect
 )
 
